@@ -45,6 +45,13 @@ def shift1d(ctx, rng, idx):
     cfl = float(rng.uniform(0.1, 0.4) if not implicit else rng.uniform(0.2, 1.5))
     nstep = int(rng.integers(1, 7 if not implicit else 4))
     dirs = {"dtlocal": True} if rng.random() < 0.25 else {}        # a quarter of the twins run with one time step per cell
+    if dirs:
+        # ... when the cell time steps are of comparable size: a Burgers cell with u ~ 0 gets a step thousands of times longer than its
+        # neighbours, the run blows up and round-off differences between twins are amplified without bound (thorough-tier witness)
+        with probes.quiet():
+            dtc_ = np.asarray(disc.calc_timestep(f, 1.0), float)
+        if not (np.all(np.isfinite(dtc_)) and np.max(dtc_) <= 30.0 * np.min(dtc_)):
+            dirs = {}
     ctx.describe(n=n, shift=k, integrator=iname, cfl=cfl, nstep=nstep, directives=dirs, **spec.desc())
     r1 = [np.roll(x, k) for x in disc.rhs(f)]; r2 = disc2.rhs(f2)
     if not (_finite(r1) and _finite(r2)):
